@@ -27,11 +27,13 @@ TOL = 1e-8
 
 def _rand_profile(rng, ts):
     from pyphysim.channels import fading
-    k = rng.randint(0, 6)
+    k = rng.randint(0, 8)
     if k == 0:
         return fading.COST259_TUx
     if k == 1:
         return fading.COST259_RAx
+    if k == 2:
+        return fading.COST259_HTx           # longest predefined profile: memory of several hundred samples at small Ts
     n = rng.randint(1, 7)
     while True:
         d = np.sort(rng.uniform(0, 5.0, size=n))
@@ -66,33 +68,58 @@ def _build(sc):
     rng = np.random.RandomState(sc["seed"])
     np.random.seed(sc["seed"] % (2 ** 31))
     ts = [3.25e-8, 1e-6, 5e-5, 2.0 ** -18][rng.randint(0, 4)]
-    prof = _rand_profile(rng, ts)
     nr, nt = sc["ant"]
     shape = None if nr == 0 else (nr, nt)
+    kind = sc["kind"]
+    route = rng.randint(0, 6)
+    if route == 0 and kind in ("su", "mu"):
+        # default construction routes: no profile (the wrapper builds a flat channel), no generator or a generator only
+        kr, kt = sc["users"]
+        gen = None
+        if sc["gen"] == "rayleigh" and rng.rand() < 0.5:
+            gen = fading_generators.RayleighSampleGenerator(shape=shape)
+        if kind == "su":
+            if nr and nr == nt:
+                ch = singleuser.SuMimoChannel(nr) if gen is None else singleuser.SuMimoChannel(nr, gen)
+            else:
+                ch = singleuser.SuChannel() if gen is None else singleuser.SuChannel(gen)
+                if nr:
+                    ch.set_num_antennas(nr, nt)
+        elif nr:
+            ch = multiuser.MuMimoChannel((kr, kt), nr, nt) if gen is None else multiuser.MuMimoChannel((kr, kt), nr, nt, gen)
+        else:
+            ch = multiuser.MuChannel((kr, kt)) if gen is None else multiuser.MuChannel((kr, kt), gen)
+        return ch, gen, 1.0, None, rng
+    infer_ts = False
+    if sc["gen"] == "jakes":
+        infer_ts = rng.rand() < 0.5                  # Ts taken from the Jakes generator (the docstring example)
+    elif rng.rand() < 0.25:
+        ts, infer_ts = 1.0, True                     # Rayleigh and Ts=None: the sampling interval defaults to 1.0
+    prof = _rand_profile(rng, ts)
     if sc["gen"] == "jakes":
         gen = fading_generators.JakesSampleGenerator(Fd=rng.uniform(5, 300), Ts=ts, L=int(rng.randint(4, 16)), shape=shape,
                                                      RS=np.random.RandomState(sc["seed"] + 1))
     else:
         gen = fading_generators.RayleighSampleGenerator(shape=shape)
-    kind = sc["kind"]
+    kw = dict(channel_profile=prof) if infer_ts else dict(channel_profile=prof, Ts=ts)
     if kind == "tdl":
         if nr and sc["seed"] % 2:
-            ch = fading.TdlMimoChannel(gen, channel_profile=prof, Ts=ts)
+            ch = fading.TdlMimoChannel(gen, **kw)
         else:
-            ch = fading.TdlChannel(gen, channel_profile=prof, Ts=ts)
+            ch = fading.TdlChannel(gen, **kw)
     elif kind == "su":
         if nr and nr == nt and sc["seed"] % 2:
-            ch = singleuser.SuMimoChannel(nr, gen, channel_profile=prof, Ts=ts)
+            ch = singleuser.SuMimoChannel(nr, gen, **kw)
         else:
-            ch = singleuser.SuChannel(gen, channel_profile=prof, Ts=ts)
+            ch = singleuser.SuChannel(gen, **kw)
             if nr:
                 ch.set_num_antennas(nr, nt)
     else:
         kr, kt = sc["users"]
         if nr:
-            ch = multiuser.MuMimoChannel((kr, kt), nr, nt, gen, channel_profile=prof, Ts=ts)
+            ch = multiuser.MuMimoChannel((kr, kt), nr, nt, gen, **kw)
         else:
-            ch = multiuser.MuChannel((kr, kt), gen, channel_profile=prof, Ts=ts)
+            ch = multiuser.MuChannel((kr, kt), gen, **kw)
     return ch, gen, ts, prof, rng
 
 
@@ -180,8 +207,7 @@ def _rand_sel(rng, fft, kind):
 
 def _expected_all(sc, ch, x, switched, ref):
     """superposition over links of ref(dense response of the link, input of its transmitter)"""
-    nr, nt = sc["ant"]
-    mimo = nr != 0
+    mimo = _ir(sc, ch, 0, 0).tap_values.ndim == 4          # the CURRENT antenna configuration (may have been changed)
     if sc["kind"] != "mu":
         xx = x
         if mimo and np.ndim(xx) == 1:
@@ -201,9 +227,9 @@ def _expected_all(sc, ch, x, switched, ref):
 
 def _cmp(y, want, mu):
     if mu:
-        return len(y) == len(want) and all(np.shape(a) == np.shape(b) and np.allclose(a, b, rtol=0, atol=TOL * max(1.0, np.abs(b).max()))
+        return len(y) == len(want) and all(np.shape(a) == np.shape(b) and np.allclose(a, b, rtol=0, atol=TOL * max(1.0, np.abs(b).max(initial=0)))
                                            for a, b in zip(y, want))
-    return np.shape(y) == np.shape(want) and np.allclose(y, want, rtol=0, atol=TOL * max(1.0, np.abs(want).max()))
+    return np.shape(y) == np.shape(want) and np.allclose(y, want, rtol=0, atol=TOL * max(1.0, np.abs(want).max(initial=0)))
 
 
 def run_scenario(sc):
@@ -216,9 +242,14 @@ def run_scenario(sc):
         return 0, None, {"id": "ProfileRmsSqrtDomain", "what": str(ex)}
     except Exception as ex:
         return 0, f"construction raised {type(ex).__name__}: {ex}", None
-    d = _check_profile(raw, ch.channel_profile, ts)
-    if d:
-        return 0, d, None
+    if raw is None:          # default route: the wrapper must have built a flat channel sampled at Ts = 1
+        cp = ch.channel_profile
+        if list(cp.tap_delays) != [0] or abs(float(cp.tap_powers_linear[0]) - 1) > TOL or cp.Ts != 1.0:
+            return 0, "default construction did not give a flat channel (one tap at delay 0, power 1, Ts 1.0)", None
+    else:
+        d = _check_profile(raw, ch.channel_profile, ts)
+        if d:
+            return 0, d, None
     prof = ch.channel_profile
     mem = int(prof.tap_delays[-1])
     amps = np.sqrt(prof.tap_powers_linear)
@@ -229,13 +260,24 @@ def run_scenario(sc):
     switched = False
     pl = None
     okc = 0
+    held = []
     # Jakes: ONE twin of the generator, taken before the first call and advanced by what the statement says
     # (n per time-domain call, fft per block), so the position is checked across the whole history
-    jtwin = copy.deepcopy(gen) if (not mu and sc["gen"] == "jakes") else None
+    jtwin = copy.deepcopy(gen) if (not mu and sc["gen"] == "jakes" and gen is not None) else None
     for i, o in enumerate(sc["ops"]):
         k = o["k"]
         try:
-            if k == "Dir":
+            if k == "Ant":
+                nr, nt = o["ant"]
+                mimo = nr != 0
+                for c_ in (ch, chA, chB):
+                    if nr:
+                        c_.set_num_antennas(nr, nt)
+                    else:
+                        c_.set_num_antennas(None, None)
+                if jtwin is not None:
+                    jtwin = copy.deepcopy(gen)          # the shape change re-draws the Jakes phases: follow from here
+            elif k == "Dir":
                 switched = bool(o["n"])
                 for c_ in (ch, chA, chB):
                     c_.switched_direction = switched
@@ -284,21 +326,23 @@ def run_scenario(sc):
                     nb = o["n"]
                     n = nb * cnt
                 else:
-                    n = o["n"] + rng.randint(0, 20)
+                    n = o["n"] + rng.randint(0, 20) if o["n"] else 0
                 shp = ((inu,) if mu else ()) + ((ina,) if mimo else ()) + (n,)
                 x1 = rng.randn(*shp) + 1j * rng.randn(*shp)
                 x2 = rng.randn(*shp) + 1j * rng.randn(*shp)
                 cc = complex(rng.randn(), rng.randn())
                 if not mu and mimo and ina == 1 and i % 2:
                     x1, x2 = x1[0], x2[0]
-                gtwin = jtwin if jtwin is not None else (copy.deepcopy(gen) if not mu else None)
+                gtwin = jtwin if jtwin is not None else (copy.deepcopy(gen) if (not mu and gen is not None) else None)
                 sd = (sc["seed"] * 31 + i) % (2 ** 31)
 
                 def call(c_, x_):
                     np.random.seed(sd)
                     return c_.corrupt_data(x_) if k == "T" else c_.corrupt_data_in_freq_domain(x_, fft, sel)
+                xin = x1 + cc * x2
+                xin_copy = xin.copy()
                 try:
-                    y = call(ch, x1 + cc * x2)
+                    y = call(ch, xin)
                 except (ValueError, ZeroDivisionError) as ex:
                     if k == "F" and isinstance(sel, slice):
                         a, b, c3 = sel.indices(fft)
@@ -306,6 +350,16 @@ def run_scenario(sc):
                             return okc, None, {"id": "SliceBlockSizeFloorDiv",
                                                "what": f"corrupt_data_in_freq_domain raised {type(ex).__name__} for {sel} with fft {fft}"}
                     raise
+                # 0. frame conditions: the input is unchanged, the previous output and response are unchanged
+                if not np.array_equal(xin, xin_copy):
+                    return okc, f"step {i} {o}: the input array was modified by the call", None
+                for name, live, snap in held:
+                    same = all(np.array_equal(a, b) for a, b in zip(live, snap)) if isinstance(snap, list) else np.array_equal(live, snap)
+                    if not same:
+                        return okc, f"step {i} {o}: {name} of the previous transmission changed during this call", None
+                irs0 = _ir(sc, ch, 0, 0).tap_values_sparse
+                held = [("the returned signal", y, [np.array(a) for a in y] if mu else np.array(y)),
+                        ("the reported response", irs0, np.array(irs0))]
                 # 1. output = convolution with / DFT of the REPORTED response
                 if k == "T":
                     want = _expected_all(sc, ch, x1 + cc * x2, switched,
@@ -327,7 +381,7 @@ def run_scenario(sc):
                     if ir.num_samples != nsamp or list(ir.tap_indexes_sparse) != list(prof.tap_delays):
                         return okc, f"step {i}: reported response has wrong sample count or tap indexes", None
                 # 2. reported = generated (single link: the generator object is ours)
-                if not mu:
+                if gtwin is not None:
                     if sc["gen"] == "jakes":
                         if k == "T":
                             gtwin.generate_more_samples(n)
@@ -369,7 +423,8 @@ def scenarios_from(jobs, seed, count):
     res = []
     for q, j in enumerate(order[:count]):
         c, _, _, path = jobs[j]
-        ops = [{"k": e["op"]["k"], "n": e["op"]["n"], "sk": e["op"]["sk"]} for e in path]
+        ops = [dict({"k": e["op"]["k"], "n": e["op"]["n"], "sk": e["op"]["sk"]},
+                    **({"ant": c["ants"][e["op"]["n"] - 1]} if e["op"]["k"] == "Ant" else {})) for e in path]
         res.append({"kind": c["kind"], "ant": c["ant"], "users": c["users"], "ops": ops, "gen": "jakes" if q % 2 == 0 else "rayleigh",
                     "seed": int(seed * 100003 + q)})
     return res
